@@ -59,9 +59,9 @@ def huge_extent_jobs(rng, n, extra=()):
 
 def max_value_jobs(rng, n):
     """Values of exactly MAX_VALUE_SIZE (4 MiB) and one / two bytes less, acknowledged, crashed, recovered."""
-    return [("maxval%d" % i, ["--seed", str(rng.randrange(1 << 30)), "--steps", "6", "--fmt", str([3, 2, 1][i % 3]), "--blocks", "3300",
-                              "--cpus", "2", "--keys", "2", "--ttl", "1", "--end", "drop", "--flushpct", "35", "--maximages", "8",
-                              "--huge", "70", "--hugemax", "1", "--cc", "4"]) for i in range(n)]
+    return [("maxval%d" % i, ["--seed", str(rng.randrange(1 << 30)), "--steps", "5", "--fmt", str([3, 2, 1][i % 3]), "--blocks", "3300",
+                              "--cpus", "2", "--keys", "2", "--ttl", "1", "--end", "drop", "--flushpct", "35", "--maximages", "6",
+                              "--huge", "100", "--hugemax", "1", "--cc", "4"]) for i in range(n)]
 
 
 def run_workloads(fxv, rd, jobs, par=8):
